@@ -405,16 +405,27 @@ def r4_latest_is_ffill(repo=None):
     f = m.fn(q)
     src = [s for s in f.body if not (isinstance(s, ast.Expr) and isinstance(s.value, ast.Constant))]
     ok = False
-    if len(src) == 2 and isinstance(src[0], ast.Assign) and isinstance(src[0].value, ast.Call) \
-            and pyfront.call_name(src[0].value) == "self.get_bounds" and isinstance(src[1], ast.Return):
-        tgt = src[0].targets[0]
-        last = tgt.elts[1].id if isinstance(tgt, ast.Tuple) and len(tgt.elts) == 2 and isinstance(tgt.elts[1], ast.Name) else None
-        c = src[1].value
-        if last and isinstance(c, ast.Call) and pyfront.call_name(c) == "self.read" and c.args and isinstance(c.args[0], ast.Name) \
-                and c.args[0].id == last and pyfront.const(pyfront.kwarg(c, "method", 3)) in ("ffill", "pad"):
+    wrong = None
+    bounds = [a for a in ast.walk(f) if isinstance(a, ast.Assign) and isinstance(a.value, ast.Call) and pyfront.call_name(a.value) == "self.get_bounds"
+              and isinstance(a.targets[0], ast.Tuple) and len(a.targets[0].elts) == 2]
+    reads = [c for x in ast.walk(f) if isinstance(x, ast.Return) and isinstance(x.value, ast.Call) for c in [x.value] if pyfront.call_name(c) == "self.read"]
+    if len(bounds) == 1 and len(reads) == 1:
+        first, last = [e.id if isinstance(e, ast.Name) else None for e in bounds[0].targets[0].elts]
+        c = reads[0]
+        rparams = [a.arg for a in m.fn("DigitalMetadataReader.read").args.args if a.arg != "self"]
+        start = c.args[0] if c.args else pyfront.kwarg(c, rparams[0] if rparams else "start_sample")
+        meth = pyfront.kwarg(c, "method", rparams.index("method") if "method" in rparams else 3)
+        mv = pyfront.const(meth) if meth is not None else None
+        if isinstance(start, ast.Name) and start.id == last and mv in ("ffill", "pad"):
             ok = True
+        elif isinstance(start, ast.Name) and start.id == first and first is not None:
+            wrong = "reads at the lower bound"
+        elif isinstance(meth, ast.Constant) and mv not in ("ffill", "pad"):
+            wrong = "reads with method=%r" % (mv,)
     if ok:
         r.ok("%s:%s %s" % (m.rel, f.lineno, q), "get_bounds() then read(<upper bound>, method='ffill')")
+    elif wrong is None:
+        raise AnalysisError("%s: the shape `_, last = self.get_bounds(); return self.read(last, method='ffill')` was not recognised" % q)
     else:
         r.violation(m.rel, q, norm(ast.unparse(f))[-120:], "read_latest does not read at the upper bound with forward fill",
                     line=f.lineno)
